@@ -14,7 +14,7 @@ from harness.indep import tcpcl_codec as codec
 SESS_MOVES = ['seg_nostart_unknown', 'seg_end_unknown', 'ack_unknown', 'ack_finished', 'ack_own_end', 'ack_own_mid',
               'refuse_unknown', 'refuse_sent_unacked',
               'refuse_own', 'unknown_type', 'xfer_ok', 'xfer_start', 'xfer_mismatch', 'xfer_cont_end', 'ka',
-              'reject_msg', 'term', 'term_twice', 'term_reply', 'ch_again', 'init_again',
+              'reject_msg', 'term', 'term_twice', 'term_reply', 'ch_again', 'init_again', 'vterm_ack_ka', 'vterm_ack_reject',
               'ack_other_conn', 'ack_other_conn_end', 'refuse_other_conn', 'xfer_start_2g', 'xfer_start_max']
 PRE_INIT_MOVES = ['seg', 'ack', 'refuse', 'term', 'ka', 'unknown_type', 'ack_early_own', 'refuse_early_own']
 PRE_CH_MOVES = ['bad_magic', 'bad_version', 'seg_first', 'bad_magic_then_good']
@@ -150,6 +150,8 @@ class Adversary(object):
 
     def cooperate(self):
         ''' ACK every segment the victim has put on the wire. '''
+        if getattr(self, 'hold', False):
+            return False
         segs = [m for m in self.w.stream_msgs[self.victim] if m['t'] == 'SEG']
         did = False
         while self.acked < len(segs):
@@ -251,6 +253,31 @@ class Adversary(object):
             self.send(codec.enc_sess_term(0, 1))
         elif name == 'ch_again':
             self.send(codec.enc_contact(0))
+        elif name in ('vterm_ack_ka', 'vterm_ack_reject'):
+            # the victim's user terminates while a transfer of the victim awaits its acknowledgements; the peer
+            # replies SESS_TERM, and then the outstanding ACKs arrive together with one more message (a KEEPALIVE,
+            # a MSG_REJECT) in a single write: nothing is outstanding after that read, the victim must close
+            self.hold = True
+            self.w.user_send(self.victim, self.data(5))
+            for _ in range(30):
+                self.w.step(self.victim, 'pq')
+                self.w.step(self.victim, 'tx')
+            self.w.user_terminate(self.victim)
+            self.settle()
+            self.send(codec.enc_sess_term(0, 1))
+            self.settle()
+            segs = [m for m in self.w.stream_msgs[self.victim] if m['t'] == 'SEG']
+            out = b''
+            while self.acked < len(segs):
+                seg = segs[self.acked]
+                self.acked += 1
+                total = (0 if seg['flags'] & codec.SEG_START else self.cum.get(seg['id'], 0)) + seg['len']
+                self.cum[seg['id']] = total
+                if seg['id'] not in self.noack:
+                    out += codec.enc_ack(seg['id'], total, seg['flags'])
+            out += codec.enc_keepalive() if name == 'vterm_ack_ka' else codec.enc_reject(4, 1)
+            self.hold = False
+            self.send(out)
         elif name == 'init_again':
             # a second SESS_INIT in the middle of the session, announcing other parameters
             self.send(codec.enc_sess_init(keepalive=7, seg_mru=50, xfer_mru=2 ** 20, node_id='dtn://someone-else/'))
